@@ -134,8 +134,7 @@ impl SeekMachine<'_> {
             ensure!(r as u128 == want, format!("remaining_blocks_inexact/{name}"), "{} after [{}]: remaining_blocks() = {} but {} of the {} blocks remain", self.d.ty, hs(hist), r, want, self.limit());
             counts[1] += 1;
         } else {
-            let want = self.limit() - started.min(self.limit());
-            ensure!(want > usize::MAX as u128, format!("remaining_blocks_missing/{name}"), "{} after [{}]: remaining_blocks() = None although {} fits usize", self.d.ty, hs(hist), want);
+            // `None` is always allowed by the property ("whenever one is reported"): nothing to check
         }
         Ok(())
     }
@@ -266,14 +265,18 @@ impl Machine for SeekMachine<'_> {
                 ensure!(!calls.is_empty() && calls[0].input == self.iv && calls[0].dir == b'E', format!("counter_block_wrong/{name}"), "{}: the first cipher call is not E(IV)", self.d.ty);
                 calls.remove(0);
             }
-            ensure!(calls.iter().all(|c| c.dir == b'E'), format!("decrypt_direction_used/{name}"), "{} [{}]: the cipher's decryption direction was used", self.d.ty, hs(hist));
-            ensure!(calls.len() == expect_idx.len(), format!("counter_block_count/{name}"), "{} [{}]: the cipher was asked for {} blocks, expected {} (indices {:?})", self.d.ty, hs(hist), calls.len(), expect_idx.len(), &expect_idx[..expect_idx.len().min(8)]);
-            let mut seen: std::collections::HashMap<Vec<u8>, u128> = Default::default();
-            for (call, idx) in calls.iter().zip(&expect_idx) {
-                let want = self.counter_block(&c, *idx);
-                ensure!(call.input == want, format!("counter_block_wrong/{name}"), "{} [{}]: the counter block fed to E for keystream block {} is {} want {}", self.d.ty, hs(hist), idx, short(&call.input), short(&want));
-                if let Some(prev) = seen.insert(call.input.clone(), *idx) {
-                    ensure!(prev == *idx, format!("counter_value_reused/{name}"), "{} [{}]: counter block {} was used for keystream block {} and again for block {}", self.d.ty, hs(hist), short(&call.input), prev, idx);
+            // the expected counter blocks must occur in order among the blocks the cipher received; extra
+            // cipher calls (prefetching, regeneration) are tolerated
+            let got: Vec<Vec<u8>> = calls.iter().filter(|c| c.dir == b'E').map(|c| c.input.clone()).collect();
+            let want: Vec<Vec<u8>> = expect_idx.iter().map(|i| self.counter_block(&c, *i)).collect();
+            if let Err(j) = match_subsequence(&got, &want) {
+                return fail(format!("counter_block_wrong/{name}"), format!("{} [{}]: the counter block for keystream block {} ({}) was never fed to E in order; E received [{}]", self.d.ty, hs(hist), expect_idx[j], short(&want[j]), got.iter().take(6).map(|b| short(b)).collect::<Vec<_>>().join(" ")));
+            }
+            // reuse monitor: one counter block, two different keystream positions
+            let mut seen: std::collections::HashMap<&[u8], u128> = Default::default();
+            for (w, idx) in want.iter().zip(&expect_idx) {
+                if let Some(prev) = seen.insert(w.as_slice(), *idx) {
+                    ensure!(prev == *idx, format!("counter_value_reused/{name}"), "{} [{}]: counter block {} was used for keystream block {} and again for block {}", self.d.ty, hs(hist), short(w), prev, idx);
                 }
             }
         }
